@@ -15,6 +15,7 @@
     html_reparse_safe_partial xhtml_reparse_safe_partial default_config_markup_ok css_pass_order_matters
     attr_values_decode_stable html_reparse_events_safe_partial redecode_witness
     css_ok css_no_negative_margin password_inputs_dropped no_password_input password_rule_reference_witness
+    html_reparse_prolog_safe_partial
 -/
 import Genshi.Lemmas.SanNest
 import Genshi.Lemmas.SanTree
@@ -25,6 +26,7 @@ import Genshi.Lemmas.SanRoundtrip
 import Genshi.Lemmas.SanReparse
 import Genshi.Lemmas.SanLayer
 import Genshi.Lemmas.SanRules
+import Genshi.Lemmas.SanReparseProlog
 import Genshi.Props.C08
 namespace Genshi.Props.C06
 open Genshi Genshi.San Genshi.San.Spec
@@ -700,6 +702,75 @@ example : (do
     let txt ← Genshi.Output.render .xhtml { strip := false, cache := true, doctype := none, dropXmlDecl := true } o
     Genshi.Reader.tokens true txt) =
     some [.start ['d', 'i', 'v'] [] false, .text [']', ']', '>', '<', 's', '>'], .end_ ['d', 'i', 'v']] := by decide +kernel
+
+/-! ### beyond C08's tree hypotheses: processing instructions and DOCTYPE declarations (HTML)
+
+  C08's tree round trips know no PI / DOCTYPE leaves; its events-level theorem
+  `html_roundtrip_prolog_partial` does, under two hypotheses: no `>` inside a PI (`piSafe`) and a
+  DOCTYPE literal that the html-mode reader reads back whole (`HtmlOkP` for DOCTYPE events).  The
+  first is **established by the repaired filter** (a PI holding `>` is dropped: C06-pi-markup);
+  the second is asked of the DOCTYPE leaves that the filter keeps (`DtOkForest`, stated through
+  C08's own predicate; the filter guarantees that no kept DOCTYPE holds a `>`, which is what
+  html.parser needs — C06-doctype-markup).  `TokSafeP` is `TokSafe` except that PI and DOCTYPE
+  tokens may occur (the property forbids comments, not these).  `_partial`: HTML method only,
+  `strip_whitespace=False`, no doctype option, no XML declaration / namespace leaves. -/
+
+theorem html_reparse_prolog_safe_partial {cfg : Cfg} (hm : CfgMarkupOk cfg) (hcss : CssNamesPlain cfg)
+    (cache dropd : Bool) (ns : List Node) (hok : okList ns = true) (hpl : prologForest ns = true)
+    (hdt : DtOkForest ns) :
+    ∃ p toks, sanitize cfg (flattenList ns) = .ok (flattenList p) ∧
+      (Genshi.Output.render .html { strip := false, cache := cache, doctype := none, dropXmlDecl := dropd }
+          (flattenList p)).bind (Genshi.Reader.tokens false) = some toks ∧
+      ∀ t ∈ toks, TokSafeP cfg t := by
+  obtain ⟨p, hp⟩ : ∃ p, pruneList cfg ns = .ok p := by
+    have h1 := keep_list cfg ns [] hok
+    obtain ⟨o, ho⟩ := sanitizeFrom_ok cfg St.init (flattenList ns ++ [])
+    cases hp : pruneList cfg ns with
+    | ok p => exact ⟨p, rfl⟩
+    | error e => rw [h1, hp] at ho; cases ho
+  have hgood := pruneList_goodP cfg ns p hpl hdt hp
+  obtain ⟨⟨h1, h2⟩, h3⟩ := forestF_good hm p hgood
+  obtain ⟨hokP, hraw⟩ := okAllP_of_good hm (Genshi.Output.forestF p) h3 false
+  refine ⟨p, Genshi.Reader.htmlExpectedP (Genshi.Output.forestF p), ?_, ?_,
+    htmlExpectedP_safe css_comments_dotall hm hcss _ h3⟩
+  · have := keep_list cfg ns [] hok
+    simp only [List.append_nil] at this
+    unfold sanitize
+    rw [this, hp]
+    simp [sanitizeFrom]
+  · have hc : Genshi.Output.render .html { strip := false, cache := cache, doctype := none, dropXmlDecl := dropd } (flattenList p) =
+        Genshi.Output.render .html { strip := false, cache := false, doctype := none, dropXmlDecl := dropd } (flattenList p) := by
+      cases cache
+      · rfl
+      · exact Genshi.Props.C08.render_cache_irrelevant' .html false none dropd (flattenList p)
+    rw [hc]
+    have hf := Genshi.Output.filtered_forest .html false dropd p h1 h2
+    simp only [Genshi.Output.render, Genshi.Output.chunks, hf, Option.map_some, Option.bind_some]
+    refine Genshi.Props.C08.html_roundtrip_prolog_partial _ _ _ hokP ?_
+    have := (Genshi.Reader.html_streamP ({} : Genshi.Output.Opts) (Genshi.Output.forestF p) {} false {} rfl rfl hokP).2
+    rw [this]; exact hraw
+
+-- non-vacuity: a DOCTYPE, a kept PI, a DOCTYPE holding `>` (dropped) and a PI holding `>` (dropped)
+example : prologForest [.leaf (.doctype ['h', 't', 'm', 'l'] none (some ['x', '.', 'd', 't', 'd'])),
+    .elem divTag [] [.leaf (.pi ['p', 'h', 'p'] ['e', 'c', 'h', 'o']), .leaf (.text ['a', '<'] false),
+      .leaf (.pi ['x'] ['a', '>', '<', 's'])],
+    .leaf (.doctype ['h', 't', 'm', 'l'] none (some ['x', '\'', '>', '<', 's', '>']))] = true ∧
+  DtOkForest [.leaf (.doctype ['h', 't', 'm', 'l'] none (some ['x', '.', 'd', 't', 'd'])),
+    .elem divTag [] [.leaf (.pi ['p', 'h', 'p'] ['e', 'c', 'h', 'o'])],
+    .leaf (.doctype ['h', 't', 'm', 'l'] none (some ['x', '\'', '>', '<', 's', '>']))] := by
+  refine ⟨by decide, ?_, ?_, ?_, trivial⟩
+  · intro _ hd; exact ⟨rfl, fun _ => by decide⟩
+  · simp [DtOkTree, DtOkForest]
+  · intro h; exact absurd h (by decide)
+example : (do
+    let o ← (sanitize Cfg.default [.doctype ['h', 't', 'm', 'l'] none (some ['x', '.', 'd', 't', 'd']), .start divTag [],
+      .pi ['p', 'h', 'p'] ['e', 'c', 'h', 'o'], .text ['a', '<'] false, .pi ['x'] ['a', '>', '<', 's'], .end_ divTag,
+      .doctype ['h', 't', 'm', 'l'] none (some ['x', '\'', '>', '<', 's', '>'])]).toOption
+    let txt ← Genshi.Output.render .html { strip := false, cache := true, doctype := none, dropXmlDecl := true } o
+    Genshi.Reader.tokens false txt) =
+    some [.doctype ['h', 't', 'm', 'l', ' ', 'S', 'Y', 'S', 'T', 'E', 'M', ' ', '"', 'x', '.', 'd', 't', 'd', '"'], .text ['\n'],
+      .start ['d', 'i', 'v'] [] false, .pi ['p', 'h', 'p', ' ', 'e', 'c', 'h', 'o', '?'], .text ['a', '<'], .end_ ['d', 'i', 'v']] := by
+  decide +kernel
 
 /-! ## The order of the two CSS passes
 
